@@ -536,6 +536,19 @@ class Hessdiag(Derivative):
         options.pop('n', None)
         super(Hessdiag, self).__init__(f, step=step, method=method, n=2, order=order, **options)
 
+    def _get_functions(self, args, kwds):
+        fun = self.fun
+
+        def export_fun(x):
+            f_x = fun(x, *args, **kwds)
+            if isinstance(f_x, np.ndarray) and f_x.size == 1:
+                # a length-1 array is a scalar function value (numpy >= 2 no longer
+                # unwraps it when it is assigned to a matrix element)
+                f_x = f_x.reshape(())
+            return f_x
+
+        return self.fd_rule.diff, export_fun
+
     def __call__(self, x, *args, **kwds):
         return super(Hessdiag, self).__call__(np.atleast_1d(x), *args, **kwds)
 
